@@ -1254,10 +1254,47 @@ def _runs_out_of_order(node):
     return bad
 
 
+def _pattern_order_violations(node):
+    """Closures that destructure a row (`|[x, y, z]|`, `|(a, b)|`) and build an array or tuple from its variables must keep
+    them in the order of the pattern: the sibling normal form abstracts single-letter names, so a swapped pair is checked here.
+    Returns [(line, text)]."""
+    bad = []
+    for cl in walk(node):
+        if kind(cl) != "closure":
+            continue
+        for prm in cl.get("params", []):
+            if kind(prm) not in ("pslice", "ptuple"):
+                continue
+            names = [e["n"] for e in prm["e"] if kind(e) == "pid"]
+            if len(names) < 2 or len(names) != len(prm["e"]):
+                continue
+            pos = {n: i for i, n in enumerate(names)}
+            for x in walk(cl["b"]):
+                if kind(x) in ("array", "tuple") and isinstance(x.get("e"), list):
+                    used = [e["p"] for e in x["e"] if kind(e) == "path" and e["p"] in pos]
+                    if len(used) < 2:
+                        continue
+                    reordered = [pos[u] for u in used] != sorted(pos[u] for u in used)
+                    duplicated = len(set(used)) != len(used)
+                    # a row rebuilt from the pattern (plus at most one outer column) must contain every column of the pattern
+                    incomplete = len(x["e"]) - len(used) <= 1 and set(used) != set(names)
+                    if reordered or duplicated or incomplete:
+                        bad.append((x.get("ln"), "[%s] built from the pattern [%s]" % (", ".join(used), ", ".join(names))))
+    return bad
+
+
 def rule_sib(trees):
     """S-SIB: PrefixTree2..9 are the same implementation."""
     res = RuleResult("S-SIB")
     methods = _prefix_tree_methods(trees)
+    for name, by_n in sorted(methods.items()):
+        for n, fn in sorted(by_n.items()):
+            bad = _pattern_order_violations(fn["b"])
+            if bad:
+                res.bad("S-SIB:%s:pattern-order" % name, "eqlog-runtime/src/prefix_tree.rs:%s PrefixTree%d::%s" % (bad[0][0], n, name),
+                        "PrefixTree%d::%s reorders the columns of a row: %s" % (n, name, bad[0][1]))
+            else:
+                res.ok()
     for name, by_n in sorted(methods.items()):
         for n, fn in sorted(by_n.items()):
             bad = _runs_out_of_order({"params": fn["params"], "b": fn["b"]})
